@@ -55,27 +55,40 @@ def run(chk):
     w = P.fn(L + "save_values_and_dt")
     c = "eqsig/loader.py:save_values_and_dt"
     ffp, values, dt, label = w.params[:4]
-    convs = conversions(w)
+    from ..textpat import TextEval
+    te = TextEval(w, {ffp: "path", values: "values", dt: "dt", label: "label"}).run()
+
+    def fields(pieces):
+        for p_ in pieces:
+            if p_[0] == "fld":
+                yield p_
+            elif p_[0] == "rep":
+                for x in fields(p_[1]):
+                    yield x
     nv = nd = nc = 0
-    for expr, conv, prec, node, fmt in convs:
-        names = set(re.findall(r"[A-Za-z_]\w*", expr))
-        if "len" in names and values in names:
-            nc += 1
-            chk.ob("R-FMT-PREC", c + "{count}", "the number of points is written by an integer conversion", conv in "diu",
-                   derived="%%%s in %r" % (conv, fmt), loc=w.loc(node), stmt=norm_stmt(node))
-        elif values in names:
-            nv += 1
-            ok = (conv in "fF" and prec is not None and prec >= 6) or conv == "r"
-            chk.ob("R-FMT-PREC", c + "{values}", "values: fixed-point, >= 6 decimals", ok,
-                   derived="conversion %s with precision %s (format %r)" % (conv, prec, fmt), loc=w.loc(node), stmt=norm_stmt(node))
-        elif dt in names:
-            nd += 1
-            ok = (conv in "fF" and prec is not None and prec >= 4) or conv == "r"
-            chk.ob("R-FMT-PREC", c + "{dt}", "dt: fixed-point, >= 4 decimals", ok,
-                   derived="conversion %s with precision %s (format %r)" % (conv, prec, fmt), loc=w.loc(node), stmt=norm_stmt(node))
+    seen = set()
+    for pieces in te.files.values():
+        for _, role, conv, prec in fields(pieces):
+            if (role, conv, prec) in seen:
+                continue
+            seen.add((role, conv, prec))
+            if role == "count":
+                nc += 1
+                chk.ob("R-FMT-PREC", c + "{count}", "the number of points is written by an integer conversion", conv in "diu",
+                       derived="conversion %s" % conv, loc=w.loc())
+            elif role == "value":
+                nv += 1
+                ok = (conv in "fF" and prec is not None and prec >= 6) or conv == "r"
+                chk.ob("R-FMT-PREC", c + "{values}", "values: fixed-point, >= 6 decimals", ok,
+                       derived="conversion %s with precision %s" % (conv, prec), loc=w.loc())
+            elif role == "dt":
+                nd += 1
+                ok = (conv in "fF" and prec is not None and prec >= 4) or conv == "r"
+                chk.ob("R-FMT-PREC", c + "{dt}", "dt: fixed-point, >= 4 decimals", ok,
+                       derived="conversion %s with precision %s" % (conv, prec), loc=w.loc())
     if not (nv and nd and nc):
         chk.ob("R-FMT-PREC", c, "conversions of values, dt and count were found", False,
-               derived="values %d, dt %d, count %d" % (nv, nd, nc), inconclusive=True, loc=w.loc())
+               derived="values %d, dt %d, count %d%s" % (nv, nd, nc, "; " + "; ".join(te.problems[:2]) if te.problems else ""), inconclusive=True, loc=w.loc())
     # ------------------------------------------------------------------ writer layout
     lay = writer_layout(chk, w, c)
     readers(chk, lay)
@@ -164,45 +177,81 @@ def run(chk):
 
 
 def writer_layout(chk, w, c):
-    """{'label_line': 0, 'header_line': 1, 'first_value_line': 2, 'dt_token': 1, 'sep': '\\n'} extracted from the writer"""
+    """{'label_line': 0, 'header_line': 1, 'first_value_line': 2, 'dt_token': 1, 'sep': '\\n'} derived from the pattern of the text the
+    writer produces (sa/textpat.py: every repetition unrolled twice, so what sits between two consecutive writes / elements shows)."""
+    from ..textpat import TextEval, unroll, lines, show
     values, dt, label = w.params[1], w.params[2], w.params[3]
-    lay = {}
-    init = None
-    for n in ast.walk(w.node):
-        if isinstance(n, ast.Assign) and isinstance(n.value, ast.List) and isinstance(n.targets[0], ast.Name):
-            init = n
-    if init is None:
-        chk.ob("R-FMT-LAYOUT", c + "{lines}", "the writer builds a list of lines", False, derived="no list literal", inconclusive=True, loc=w.loc())
+    te = TextEval(w, {w.params[0]: "path", values: "values", dt: "dt", label: "label"}).run()
+    written = {f: p for f, p in te.files.items() if p}
+    if te.problems or len(written) != 1:
+        chk.ob("R-FMT-LAYOUT", c + "{lines}", "the text written by the writer is derivable as a pattern", False,
+               derived="; ".join(te.problems[:3]) or "%d file(s) written" % len(written), inconclusive=True, loc=w.loc())
         return None
-    lst = init.targets[0].id
-    elts = init.value.elts
-    for i, e in enumerate(elts):
-        txt = ast.unparse(e)
-        if isinstance(e, ast.Name) and e.id == label:
-            lay["label_line"] = i
-        elif dt in re.findall(r"[A-Za-z_]\w*", txt) and "len" in txt:
-            lay["header_line"] = i
-            # token order inside the header
-            if isinstance(e, ast.BinOp) and isinstance(e.left, ast.Constant):
-                toks = e.left.value.split()
-                args = list(e.right.elts) if isinstance(e.right, ast.Tuple) else [e.right]
-                for k, a in enumerate(args):
-                    if ast.unparse(a) == dt and k < len(toks):
-                        lay["dt_token"] = k
-                    if "len" in ast.unparse(a):
-                        lay["count_token"] = k
-                lay["header_tokens"] = len(toks)
-    lay["first_value_line"] = len(elts)
-    appends = [n for n in ast.walk(w.node) if isinstance(n, ast.Call) and isinstance(n.func, ast.Attribute) and n.func.attr == "append"
-               and isinstance(n.func.value, ast.Name) and n.func.value.id == lst]
-    in_loop = any(isinstance(f, ast.For) and any(a is x for x in ast.walk(f)) for f in ast.walk(w.node) for a in appends)
-    joins = [n for n in ast.walk(w.node) if isinstance(n, ast.Call) and isinstance(n.func, ast.Attribute) and n.func.attr == "join"
-             and isinstance(n.func.value, ast.Constant)]
-    lay["sep"] = joins[0].func.value.value if joins else None
-    ok = lay.get("label_line") == 0 and lay.get("header_line") == 1 and lay["first_value_line"] == 2 and lay.get("dt_token") == 1 and \
-        lay.get("count_token") == 0 and lay.get("header_tokens") == 2 and lay["sep"] == "\n" and len(appends) == 1 and in_loop
+    fvar, content = next(iter(written.items()))
+    modes = [m for f, m in te.opened if f == fvar]
+    chk.ob("R-FMT-LAYOUT", c + "{mode}", "the file is opened for writing (truncating)", bool(modes) and all(m.strip("'\"") in ("w", "wt", "w+") for m in modes),
+           derived="open mode %s" % modes, loc=w.loc())
+    ls = lines(unroll(content))
+    if ls and ls[-1] == []:
+        ls.pop()        # one trailing newline is harmless to every reader
+    lay = {"sep": "\n"}
+    problems = []
+    n_values = 0
+    for k, ln in enumerate(ls):
+        flds = [t for t in ln if t[0] == "fld"]
+        txt = [t[1] for t in ln if t[0] == "txt"]
+        roles = [t[1] for t in flds]
+        if not ln:
+            problems.append("line %d is empty" % k)
+        elif roles == ["label"] and not txt:
+            lay.setdefault("label_line", k)
+        elif "count" in roles or "dt" in roles:
+            lay.setdefault("header_line", k)
+            # whitespace-separated tokens of the header
+            toks, cur = [], []
+            for t in ln:
+                if t[0] == "txt":
+                    parts = re.split(r"(\s+)", t[1])
+                    for part in parts:
+                        if not part:
+                            continue
+                        if part.isspace():
+                            if cur:
+                                toks.append(cur)
+                                cur = []
+                        else:
+                            cur.append(("txt", part))
+                else:
+                    cur.append(t)
+            if cur:
+                toks.append(cur)
+            lay["header_tokens"] = len(toks)
+            for j, tk in enumerate(toks):
+                rs = [t[1] for t in tk if t[0] == "fld"]
+                if len(tk) != 1:
+                    problems.append("header token %d is made of %d pieces (no separator between them)" % (j, len(tk)))
+                if rs == ["dt"]:
+                    lay["dt_token"] = j
+                if rs == ["count"]:
+                    lay["count_token"] = j
+        elif roles and all(r == "value" for r in roles):
+            lay.setdefault("first_value_line", k)
+            n_values += 1
+            if len(roles) > 1:
+                problems.append("line %d holds %d values: nothing separates two consecutive writes / elements" % (k, len(roles)))
+            if txt:
+                problems.append("line %d carries text %r beside the value" % (k, txt))
+        else:
+            problems.append("line %d is not a label, header or value line: %s" % (k, show([("lit", x[1]) if x[0] == "txt" else x for x in ln])))
+    if lay.get("first_value_line") is not None:
+        tail = [k for k, ln in enumerate(ls) if k > lay["first_value_line"] and not (len([t for t in ln if t[0] == "fld" and t[1] == "value"]) == len(ln) == 1)]
+        if tail and not problems:
+            problems.append("line %d after the first value is not a single value" % tail[0])
+    ok = not problems and lay.get("label_line") == 0 and lay.get("header_line") == 1 and lay.get("first_value_line") == 2 and \
+        lay.get("dt_token") == 1 and lay.get("count_token") == 0 and lay.get("header_tokens") == 2 and n_values >= 2
     chk.ob("R-FMT-LAYOUT", c + "{layout}", "line 0 label; line 1 '<npts> <dt>'; one value per line from line 2; joined by newlines", ok,
-           derived="%s, %d append(s) in loop: %s" % ({k: v for k, v in sorted(lay.items())}, len(appends), in_loop), loc=w.loc(init))
+           derived=("; ".join(problems[:2]) + " -- " if problems else "") + "pattern %s ; %s" % (show(content), {k: v for k, v in sorted(lay.items())}),
+           loc=w.loc(), detail="on reload the fused text parses as one (wrong or nan) sample and the count no longer matches" if any("holds" in p for p in problems) else None)
     return lay
 
 
